@@ -167,9 +167,11 @@ var ifaceObservers = map[string]map[string]bool{
 	"StateMachine":    {"NeedSnapshot": true},
 }
 var ifaceMutators = map[string]map[string]bool{
-	"Log":             {"Open": true, "Replay": true, "Close": true, "AppendEntry": true, "AppendEntries": true, "Truncate": true, "Compact": true, "DiscardEntries": true},
-	"StateStorage":    {"SetState": true},
-	"SnapshotFile":    {"Close": true, "Discard": true, "Write": true, "Read": true, "Seek": true},
+	"Log":          {"Open": true, "Replay": true, "Close": true, "AppendEntry": true, "AppendEntries": true, "Truncate": true, "Compact": true, "DiscardEntries": true},
+	"StateStorage": {"SetState": true},
+	// SnapshotFile's only observer is Metadata(), which is fixed when the file is created or opened:
+	// Write/Read/Seek/Close/Discard do not change it, so nothing invalidates facts about it.
+	"SnapshotFile":    {},
 	"SnapshotStorage": {"NewSnapshotFile": true, "SnapshotFile": true},
 	"StateMachine":    {"Apply": true, "Snapshot": true, "Restore": true},
 }
@@ -261,6 +263,14 @@ func (p *Program) canon1(f *Frame, v ssa.Value, depth int) *Term {
 		return t
 	case *ssa.FieldAddr:
 		base := rec(v.X)
+		if al, ok := v.X.(*ssa.Alloc); ok && !al.Heap {
+			// a local struct variable assigned exactly once (x := f()): its fields are the fields of that value
+			if sv := singleStore(al); sv != nil && onlyFieldReads(al) {
+				if t := rec(sv); !t.Opaque {
+					base = derive("&"+t.S, t)
+				}
+			}
+		}
 		fld := fieldOf(v.X.Type(), v.Field)
 		bs := base.S
 		if strings.HasPrefix(bs, "&") {
@@ -378,6 +388,34 @@ func (p *Program) canon1(f *Frame, v ssa.Value, depth int) *Term {
 		return p.canonCall(f, v, rec)
 	}
 	return p.opaque(f, v)
+}
+
+// onlyFieldReads reports whether, apart from its single initialising store, the alloc is only
+// read (field addresses that are loaded, whole loads, debug refs).
+func onlyFieldReads(al *ssa.Alloc) bool {
+	for _, r := range *al.Referrers() {
+		switch x := r.(type) {
+		case *ssa.Store:
+			if x.Addr != al {
+				return false
+			}
+		case *ssa.UnOp, *ssa.DebugRef:
+		case *ssa.FieldAddr:
+			if x.Referrers() == nil {
+				return false
+			}
+			for _, rr := range *x.Referrers() {
+				if u, ok := rr.(*ssa.UnOp); !ok || u.Op != token.MUL {
+					if _, ok := rr.(*ssa.DebugRef); !ok {
+						return false
+					}
+				}
+			}
+		default:
+			return false
+		}
+	}
+	return true
 }
 
 func isStringType(t types.Type) bool {
